@@ -1324,10 +1324,11 @@ def compile_match_expression(compiler, expr, root, subject, clauses):
             )
         )
 
-    returnable = Result(
-        expr=asty.Name(expr, id=return_var.id, ctx=ast.Load()),
-        temp_variables=[return_var],
-    )
+    # We don't give the Result any temp_variables because we don't want
+    # `Result.rename` to touch `return_var`. Otherwise, its initial
+    # assignment below would clobber the renamed-to variable before
+    # the subject, guards, and bodies (which may refer to it) run.
+    returnable = Result(expr=asty.Name(expr, id=return_var.id, ctx=ast.Load()))
     ret = Result() + subject
     ret += asty.Assign(
         expr, targets=[return_var], value=asty.Constant(expr, value=None)
